@@ -290,11 +290,29 @@ func (s *IndexedState) add(ctx *Context, id string, x Map) (string, error) {
 	if err != nil {
 		return id, err
 	}
+
+	// If this id currently holds a rule, take that rule's 'when' out
+	// of the pattern index before the id is given its new content.
+	// Otherwise the old pattern keeps pointing at this id after the
+	// rule is replaced, overwritten by a plain fact or removed.
+	var oldRule map[string]interface{}
+	if old, have := s.IdToFact[id]; have {
+		if oldRule, _ = ExtractRule(ctx, old, false); oldRule != nil {
+			if err = s.unindexRule(ctx, id, oldRule); err != nil {
+				return "", err
+			}
+		}
+	}
+
 	if rule != nil {
 		// ToDo: Metric(ctx, "RuleUpdated", "location", s.Name, "ruleId", id)
 		Log(DEBUG, ctx, "IndexedState.add", "state", s.Name, "rule", rule, "ruleId", id)
 		if _, scheduled := rule["schedule"]; !scheduled {
 			if err = s.indexRule(ctx, id, rule); err != nil {
+				if oldRule != nil {
+					// The old rule stays stored; keep it findable.
+					s.indexRule(ctx, id, oldRule)
+				}
 				return "", err
 			}
 		}
